@@ -20,6 +20,7 @@ import (
 	"path/filepath"
 	"sort"
 	"strings"
+	"syscall"
 	"testing"
 	"time"
 
@@ -102,26 +103,27 @@ type machine struct {
 	verdict      map[string]int      // week+body -> 200 / 400: the server's verdict on a report is stable
 	uploaderOf   map[*simrt.Task]int // uploader task -> round
 
-	round       int
-	roundMode   string    // independently parsed mode at the start of the round
-	roundAsof   time.Time // recorded opt-in date (zero if none/unparsable)
-	roundStart  time.Time
-	roundFiles  map[string]*modelFile
-	weekFiles   map[string][]*modelFile
-	hadReport   map[string]bool // weeks that had a report of any kind before the round
-	seenCalls   int
-	seenReqs    int
-	lastFsState int
-	cleanSeq    int // requests before this index precede the latest gotelemetry clean
-	killsOn     bool
-	uplUnusable bool
+	round        int
+	roundMode    string    // independently parsed mode at the start of the round
+	roundAsof    time.Time // recorded opt-in date (zero if none/unparsable)
+	roundStart   time.Time
+	roundFiles   map[string]*modelFile
+	weekFiles    map[string][]*modelFile
+	hadReport    map[string]bool // weeks that had a report of any kind before the round
+	seenCalls    int
+	seenReqs     int
+	lastFsState  int
+	cleanSeq     int // requests before this index precede the latest gotelemetry clean
+	killsOn      bool
+	uplUnusable  bool
+	entropyFails bool
 	markerAtSend map[int]bool // request seq -> upload/<week>.json existed when it was sent
-	faultsOn    bool
-	sawKill     bool
-	reportMaker map[string]*simrt.Task // week -> task that created local/<week>.json
-	allMakers   map[string][]*simrt.Task
-	localMaker  map[string]*simrt.Task
-	fatalStatus map[*simrt.Task]map[string]int // uploader task -> week -> status it received
+	faultsOn     bool
+	sawKill      bool
+	reportMaker  map[string]*simrt.Task // week -> task that created local/<week>.json
+	allMakers    map[string][]*simrt.Task
+	localMaker   map[string]*simrt.Task
+	fatalStatus  map[*simrt.Task]map[string]int // uploader task -> week -> status it received
 }
 
 func (m *machine) fail(inv, format string, args ...any) {
@@ -142,6 +144,10 @@ type xReader struct{ m *machine }
 
 func (r xReader) Read(p []byte) (int, error) {
 	m := r.m
+	if m.entropyFails {
+		m.s.FaultsHit["entropy:EIO"]++
+		return 0, syscall.EIO // the system's entropy source fails (upload-failure world only)
+	}
 	x := m.xs[m.t.Biased(len(m.xs), 1, 2)]
 	if len(p) >= 8 {
 		binary.LittleEndian.PutUint64(p, math.Float64bits((x+1)/2))
